@@ -88,7 +88,7 @@ def run(
                 shutil.copy(f, wd / f.name)
         for name, text in (extra_files or {}).items():
             (wd / name).write_text(text)
-        cmd = ["timeout", str(timeout), "java", "-XX:+UseParallelGC", "-Xmx24g", *jvm, "-cp", JAR, "tlc2.TLC",
+        cmd = ["timeout", str(timeout), "java", "-XX:+UseParallelGC", "-Xmx24g", "-Xss512m", *jvm, "-cp", JAR, "tlc2.TLC",
                "-workers", str(workers), "-metadir", str(wd / "meta"), "-noGenerateSpecTE",
                "-config", cfg]
         if coverage and simulate is None:
